@@ -2835,6 +2835,15 @@ def views_oracle(t, steps):
                             cnt = sum(1 for l in (s.get("out") or {}).get(str(cid), []) if re.match(r"^:\S+ PART %s( |$)" % re.escape(chn), l))
                             if cnt != 1:
                                 fails.append(("PART %s by %s: member %s saw the announcement %d times" % (chn, actor, mem, cnt), {"step": s["k"]}))
+                # "under their current nicknames": the nickname a NICK announcement tells the members is the one the three views list
+                # from then on (seeded C04-i: the announcement carried the nick as sent, the state a shortened one)
+                for c2, ls2 in (s.get("out") or {}).items():
+                    for l2 in ls2:
+                        mm = re.match(r"^:%s!\S* NICK :?(\S+)$" % re.escape(actor), l2)
+                        if mm and mm.group(1) not in d["users"]:
+                            fails.append(("connection %s was told that %s is now %r (%d characters); no user of that name exists afterwards (users: %r)" % (
+                                c2, actor, mm.group(1)[:40], len(mm.group(1)), sorted(x[:40] for x in d["users"])), {"step": s["k"]}))
+                            break
                 m = re.match(r"^NICK (\S+)$", ev[2])
                 if m and m.group(1) not in prev["users"] and m.group(1) in d["users"] and actor not in d["users"]:
                     new = m.group(1)
@@ -3001,6 +3010,21 @@ def check_C04(res):
                 t.line(viewer, q)
         t.line(1, "PRIVMSG #other :still here")
         t.meta = {"victims": "", "preconfigured": False, "part": part}
+        probing.append(t)
+    for k2, ln in enumerate([200, 201, 243]):
+        t = Trace("C04-long-nick-%d" % ln, Config())
+        for c, nk in enumerate(["alice", "bob", "carol"]):
+            t.register(c, nk)
+        t.line(0, "JOIN #room")
+        t.line(1, "JOIN #room")
+        newn = "Rob" + "x" * (ln - 3)
+        t.line(1, "NICK " + newn)
+        for viewer in (0, 2):
+            for q in ("NAMES #room", "WHO #room", "WHOIS " + newn, "WHOIS " + newn[:200]):
+                t.line(viewer, q)
+        t.line(1, "PART #room :bye")
+        t.line(0, "NAMES #room")
+        t.meta = {"victims": "", "preconfigured": False, "nick_length": ln}
         probing.append(t)
     def orc(t, steps):
         return views_oracle(t, steps) + inv_oracle(t, steps) + join_oracle(t, steps) + kick_announce_oracle(t, steps) + eof_oracle(t, steps)
@@ -3217,6 +3241,21 @@ def check_C05(res):
         tn.line(3, "JOIN #a")
         tn.line(3, "PART #a")
     traces.append(tn)
+    # mode strings whose letters take parameters, sent by members of every rank: a letter the sender's rank does not suffice for must
+    # not shift the parameters of the letters behind it (seeded C05-i: a skipped +k left its key to be parsed as the limit of +l)
+    for k2, ranks in enumerate(["h", "v", "", "o", "hv"]):
+        tm = Trace("C05-mode-args-%d" % k2, Config(channels=[dict(name="#m", flags="", founders=["boss"], half_operators=["actor"] if "h" in ranks else [],
+                                                                   voices=["actor"] if "v" in ranks else [], operators=["actor"] if "o" in ranks else [])]))
+        for c, nk in enumerate(["boss", "actor", "peer"]):
+            tm.register(c, nk)
+            tm.line(c, "JOIN #m")
+        for ml in ("+kl sesame 10", "+lk 10 sesame", "+kl 10 sesame", "-k+l sesame 7", "+klb a 5 m!*@*", "+bkl m!*@* key 3", "+ok peer key", "+kov key peer peer",
+                   "+lo 4 peer", "+kI key i!*@*", "+lv x peer", "+l notanumber", "+hl peer 12", "+qk peer key", "+ak peer key", "-l+k key", "+kkl a b 3", "+eIl e!*@* i!*@* 2"):
+            tm.line(1, "MODE #m " + ml)
+            tm.line(1, "PING alive")
+        tm.line(0, "MODE #m")
+        tm.line(2, "PRIVMSG #m :still served")
+        traces.append(tm)
     def orc(t, steps):
         return eof_oracle(t, steps) + inv_oracle(t, steps)
     r = l2_campaign(res, "C05", 0, 0, prof, traces=traces, oracle=orc)
@@ -5288,7 +5327,7 @@ def check_C20(res):
 import threading
 
 KA_PATTERNS = ["always", "never", "late_ok", "late_bad", "stop_after_2", "odd_token", "chatter_never", "unsolicited_then_never", "stop_after_1_chatter",
-               "slow_register_always", "cap_midsession_always", "empty_token_always"]
+               "slow_register_always", "cap_midsession_always", "empty_token_always", "flood_never"]
 
 
 def ka_client(port, nick, pattern, ping, pong, t_end, out):
@@ -5317,6 +5356,9 @@ def ka_client(port, nick, pattern, ping, pong, t_end, out):
     pending = []     # scheduled pong send times (ms)
     answered = 0
     next_chatter = 300
+    flood_done = 0
+    flooder = None
+    flood_stop = []
     if pattern == "unsolicited_then_never":
         pending.append((200, "PONG :early"))
     while True:
@@ -5345,6 +5387,24 @@ def ka_client(port, nick, pattern, ping, pong, t_end, out):
                 ev.append((now(), "X"))
             except OSError:
                 pass
+        if pattern == "flood_never" and rec["reg"] is not None and flooder is None:
+            # "whatever other traffic there is in the meantime": a client that reads everything but keeps its own input pipe full (a
+            # second thread writes as fast as the server reads), so that the server always finds the next line already received - and
+            # never answers a PING (seeded C17-i: the timers were looked at only when no input was waiting)
+            def flood():
+                data, off = b"PING f\r\n" * 200, 0
+                while not flood_stop:
+                    try:
+                        off = (off + s.send(data[off:])) % len(data)
+                    except socket.timeout:
+                        continue
+                    except OSError:
+                        break
+            flooder = threading.Thread(target=flood, daemon=True)
+            flooder.start()
+        if pattern == "flood_never" and flooder is not None and t >= next_chatter:
+            next_chatter = t + 400
+            ev.append((now(), "X"))
         if pattern in ("chatter_never", "stop_after_1_chatter") and rec["reg"] is not None and t >= next_chatter:
             next_chatter = t + 300
             try:
@@ -5364,10 +5424,14 @@ def ka_client(port, nick, pattern, ping, pong, t_end, out):
             rec["eof"] = now()
             break
         buf += x
-        while b"\n" in buf:
-            ln, buf = buf.split(b"\n", 1)
-            ln = ln.rstrip(b"\r").decode("utf-8", "replace")
+        parts = buf.split(b"\n")
+        buf = parts.pop()
+        for ln in parts:
             rec["lines"] += 1
+            if b" PONG " in ln:
+                flood_done += 1
+                continue
+            ln = ln.rstrip(b"\r").decode("utf-8", "replace")
             tl = now()
             if " 001 " in ln and rec["reg"] is None:
                 rec["reg"] = tl
@@ -5398,6 +5462,7 @@ def ka_client(port, nick, pattern, ping, pong, t_end, out):
                     answered += 1
             if re.match(r"^(?::\S+ )?ERROR", ln):
                 rec["error_line"] = (tl, ln)
+    flood_stop.append(1)
     try:
         s.close()
     except OSError:
@@ -5528,7 +5593,8 @@ def check_C17(res):
                 elif not (T - SL_EARLY <= r["eof"] <= T + SL_LATE):
                     rr.violation("the connection is closed at t=%d ms, the keep-alive model gives t=%d ms (first unanswered PING + pong_timeout=%d s; pattern %s)" % (
                         r["eof"], T, pong, r["pattern"]), {"kind": "timing", "scenario": r, "model": p, "case": case}, found=True)
-                elif r["error_line"] is None or "Pong timeout" not in r["error_line"][1]:
+                elif (r["error_line"] is None or "Pong timeout" not in r["error_line"][1]) and r["pattern"] != "flood_never":
+                    # (a flooding client has unread input in the server's socket when it is closed: the reset may discard the ERROR line)
                     rr.violation("the dropped client was not sent the ERROR line before the close", {"kind": "timing", "scenario": r}, found=True)
             else:
                 verdicts["kept"] += 1
